@@ -1,10 +1,13 @@
 package apidesc
 
 import (
+	"strings"
+
 	"google.golang.org/genproto/googleapis/api/annotations"
 	"google.golang.org/grpc"
 	"google.golang.org/protobuf/proto"
 	"google.golang.org/protobuf/reflect/protoreflect"
+	"google.golang.org/protobuf/reflect/protoregistry"
 	"google.golang.org/protobuf/types/descriptorpb"
 )
 
@@ -28,7 +31,11 @@ func FromDescriptor(fd protoreflect.FileDescriptor) File {
 		for j := 0; j < ms.Len(); j++ {
 			md := ms.Get(j)
 			m := Method{Name: string(md.Name()), Input: string(md.Input().FullName()), Output: string(md.Output().FullName()),
-				CStream: md.IsStreamingClient(), SStream: md.IsStreamingServer()}
+				CStream: md.IsStreamingClient(), SStream: md.IsStreamingServer(),
+				Idem: descriptorpb.MethodOptions_IDEMPOTENCY_UNKNOWN.String()}
+			if o, ok := md.Options().(*descriptorpb.MethodOptions); ok && o != nil {
+				m.Idem = o.GetIdempotencyLevel().String()
+			}
 			if o, ok := md.Options().(*descriptorpb.MethodOptions); ok && o != nil && proto.HasExtension(o, annotations.E_Http) {
 				if r, ok := proto.GetExtension(o, annotations.E_Http).(*annotations.HttpRule); ok && r != nil {
 					h := embHTTP(r)
@@ -87,7 +94,7 @@ func embMessages(ms protoreflect.MessageDescriptors) []Message {
 		for j := 0; j < fs.Len(); j++ {
 			fd := fs.Get(j)
 			f := Field{Name: string(fd.Name()), Number: int64(fd.Number()), Kind: fd.Kind().String(),
-				Card: int64(fd.Cardinality()), Optional: fd.HasOptionalKeyword(), JSON: fd.JSONName()}
+				Card: int64(fd.Cardinality()), Optional: fd.HasOptionalKeyword(), JSON: fd.JSONName(), Packed: fd.IsPacked()}
 			if o := fd.ContainingOneof(); o != nil {
 				n := string(o.Name())
 				f.Oneof = &n
@@ -124,4 +131,85 @@ func FromServiceDesc(sd grpc.ServiceDesc) Grpc {
 		g.Streams = append(g.Streams, Stream{s.StreamName, s.ServerStreams, s.ClientStreams})
 	}
 	return g
+}
+
+// ExtTypes lists the message and enum types of other files that fields and
+// methods of fd refer to, with the proto package and Go import path of their file.
+func ExtTypes(fd protoreflect.FileDescriptor) []ExtType {
+	var out []ExtType
+	seen := map[protoreflect.FullName]bool{}
+	add := func(d protoreflect.Descriptor) {
+		if d == nil || d.ParentFile() == nil || d.ParentFile() == fd || seen[d.FullName()] {
+			return
+		}
+		seen[d.FullName()] = true
+		e := ExtType{Full: string(d.FullName()), Package: string(d.ParentFile().Package())}
+		if o, ok := d.ParentFile().Options().(*descriptorpb.FileOptions); ok && o != nil {
+			e.GoPath = o.GetGoPackage()
+			if i := strings.IndexByte(e.GoPath, ';'); i >= 0 {
+				e.GoPath = e.GoPath[:i]
+			}
+		}
+		out = append(out, e)
+	}
+	var walk func(ms protoreflect.MessageDescriptors)
+	walk = func(ms protoreflect.MessageDescriptors) {
+		for i := 0; i < ms.Len(); i++ {
+			fs := ms.Get(i).Fields()
+			for j := 0; j < fs.Len(); j++ {
+				switch fs.Get(j).Kind() {
+				case protoreflect.MessageKind, protoreflect.GroupKind:
+					add(fs.Get(j).Message())
+				case protoreflect.EnumKind:
+					add(fs.Get(j).Enum())
+				}
+			}
+			walk(ms.Get(i).Messages())
+		}
+	}
+	walk(fd.Messages())
+	for i := 0; i < fd.Services().Len(); i++ {
+		ms := fd.Services().Get(i).Methods()
+		for j := 0; j < ms.Len(); j++ {
+			add(ms.Get(j).Input())
+			add(ms.Get(j).Output())
+		}
+	}
+	return out
+}
+
+// RegistryImports resolves an import path through the files linked into this
+// binary (the generated package links the Go packages of everything it
+// imports): full name -> message / enum, public imports included.
+func RegistryImports(path string) (map[string]string, bool) {
+	fd, err := protoregistry.GlobalFiles.FindFileByPath(path)
+	if err != nil {
+		return nil, false
+	}
+	out := map[string]string{}
+	var file func(fd protoreflect.FileDescriptor)
+	var msgs func(ms protoreflect.MessageDescriptors)
+	enums := func(es protoreflect.EnumDescriptors) {
+		for i := 0; i < es.Len(); i++ {
+			out[string(es.Get(i).FullName())] = "enum"
+		}
+	}
+	msgs = func(ms protoreflect.MessageDescriptors) {
+		for i := 0; i < ms.Len(); i++ {
+			out[string(ms.Get(i).FullName())] = "message"
+			msgs(ms.Get(i).Messages())
+			enums(ms.Get(i).Enums())
+		}
+	}
+	file = func(fd protoreflect.FileDescriptor) {
+		msgs(fd.Messages())
+		enums(fd.Enums())
+		for i := 0; i < fd.Imports().Len(); i++ {
+			if im := fd.Imports().Get(i); im.IsPublic && im.FileDescriptor != nil {
+				file(im.FileDescriptor)
+			}
+		}
+	}
+	file(fd)
+	return out, true
 }
